@@ -43,6 +43,7 @@ func LocksHeld() int { return lockDepth[taskID()] }
 
 // MutexLock replaces Lock/RLock.
 func MutexLock(m interface{}) {
+	syncPoint()
 	id := taskID()
 	for {
 		st := locks[m]
@@ -85,6 +86,21 @@ func MutexUnlock(m interface{}) {
 	st.depth = 0
 	lockDepth[st.owner]--
 	LockEpoch++
+	// releasing a lock is a scheduling point: whatever escapes the critical
+	// section (a pointer into shared state returned under a deferred Unlock) can
+	// be invalidated by another task before the caller uses it
+	syncPoint()
+}
+
+// syncPoint is a yield that belongs to no statement (site 0); the schedule
+// generators treat it as a preferred preemption point.
+func syncPoint() {
+	if on && quiet == 0 && cur != nil {
+		if InterestTrace != nil {
+			InterestTrace(cur.id, cur.op, cur.opYields+1)
+		}
+		Yield(0)
+	}
 }
 
 // OnceDo replaces (*sync.Once).Do.
